@@ -154,12 +154,29 @@ func c14HistoryUnit(p *Program, maxLen int) *Unit {
 		outcomes := map[string]bool{}
 		seenViol := map[string]bool{}
 		var rec func(hist []op)
-		runHist := func(hist []op) {
+		runHist := func(hist []op, shared bool) {
 			var inst [2]workflow.ExecutableWorkflow
 			var names []string
+			prepareOne := func() (workflow.ExecutableWorkflow, error) { return c14Prepare(p) }
+			if shared {
+				// both instances are prepared from one parsed workflow object by one executor
+				names = append(names, "parse-once")
+				sp, err := sharedPreparer(p.YAML(), p.Files())
+				if err != nil {
+					res.HarnessErrors = append(res.HarnessErrors, err.Error())
+					return
+				}
+				prepareOne = func() (workflow.ExecutableWorkflow, error) {
+					saved := env.W
+					env.W = env.NewWorld(&env.Script{})
+					env.W.Phase = "prepare"
+					defer func() { env.W = saved }()
+					return sp()
+				}
+			}
 			for _, o := range hist {
 				if o.prep {
-					pw, err := c14Prepare(p)
+					pw, err := prepareOne()
 					if err != nil {
 						res.HarnessErrors = append(res.HarnessErrors, err.Error())
 						return
@@ -199,7 +216,13 @@ func c14HistoryUnit(p *Program, maxLen int) *Unit {
 				return
 			}
 			if len(hist) > 0 && !hist[len(hist)-1].prep {
-				runHist(hist)
+				runHist(hist, false)
+				for _, o := range hist {
+					if o.prep && o.inst == 1 {
+						runHist(hist, true) // two preparations: also from one parsed workflow object
+						break
+					}
+				}
 			}
 			if len(hist) == maxLen {
 				return
@@ -226,7 +249,7 @@ func c14HistoryUnit(p *Program, maxLen int) *Unit {
 		rec(nil)
 		res.Outcomes = len(outcomes)
 		res.Signatures = res.Execs
-		res.Sample = map[string]any{"program": p.Name, "alphabet": "prepare0 prepare1 run<i>(a|b|failing|cancelled|invalid)", "max_length": maxLen}
+		res.Sample = map[string]any{"program": p.Name, "alphabet": "prepare0 prepare1 run<i>(a|b|failing|cancelled|invalid); histories with two preparations also with both prepared from one parsed workflow object", "max_length": maxLen}
 		return res
 	}}
 }
